@@ -24,6 +24,19 @@ def subsets(u):
     return out
 
 
+def harvest_pyx_constants(lo=48, hi=8192):
+    """integer literals and constant shifts of the current set_operations.pyx (C19's partition refinement, applied to sizes)"""
+    import re
+    from .. import build
+    try:
+        src = (build.REPO / "src" / "catii" / "set_operations.pyx").read_text()
+    except Exception:  # noqa
+        return []
+    src = re.sub(r"#.*", "", src)
+    out = {int(m) for m in re.findall(r"(?<![\w.])(\d{2,})(?![\w.])", src)} | {1 << int(m) for m in re.findall(r"1\s*<<\s*(\d+)", src)}
+    return sorted(v for v in out if lo <= v <= hi)
+
+
 def gen_cases(tier, seed):
     rnd = random.Random(seed)
     u = universe(tier)
@@ -95,6 +108,20 @@ def gen_cases(tier, seed):
             for op in ("inter", "union", "diff"):
                 cases.append({"kind": "kernel", "op": op, "A": dense, "B": sp})
                 cases.append({"kind": "kernel", "op": op, "A": sp, "B": dense})
+    # the same idea at the scale of larger blocks: 1024, 2048 (4096 thorough) and every integer constant the current
+    # .pyx source mentions (a block or leap size is a boundary): dense runs of length c+1, 2c+1 against single elements
+    # placed around every multiple of c from the front and from the back
+    blocks = sorted({1024, 2048} | ({4096} if tier == "thorough" else set()) | set(harvest_pyx_constants()))
+    for c in blocks:
+        for length in (c + 1, 2 * c + 1):
+            dense = list(range(3, 3 + length))
+            picks = sorted({q for k in (1, 2) for d in (-1, 0, 1) for q in (k * c + d, length - 1 - (k * c + d), length - (k * c + d))
+                            if 0 <= q < length} | {0, length - 1})
+            sparse_sets = [[dense[q]] for q in picks] + [[dense[q] for q in picks[i::3]] for i in range(3)]
+            for sp in sparse_sets:
+                for op in ("inter", "union", "diff"):
+                    cases.append({"kind": "kernel", "op": op, "A": dense, "B": sp})
+                    cases.append({"kind": "kernel", "op": op, "A": sp, "B": dense})
     for _ in range(n // 4):
         k = rnd.randint(0, 6)
         hi = rnd.choice([20, 300, M32])
